@@ -286,9 +286,9 @@ def canon(a):
     if a is None or isinstance(a, (bool, int, str)):
         return a
     if isinstance(a, float):
-        if a != a or a in (float('inf'), float('-inf')):
-            raise ValueError('non-finite float outside the digest model')
-        return a
+        if a in (float('inf'), float('-inf')):
+            raise ValueError('infinite float outside the digest model')
+        return a            # NaN is a legal cell: digest 5 (the catch-all of SF/PoolVal.v:digest)
     raise ValueError(f'no canonical form for {type(a).__name__}')
 
 
@@ -306,6 +306,8 @@ def digest(c):
             acc = (acc * 31 + ord(ch)) % DMOD
         return acc
     if isinstance(c, float):
+        if c != c:
+            return 5
         n, d = c.as_integer_ratio()
         return (n * 7 + d) % DMOD
     acc = 17
@@ -938,6 +940,83 @@ def namedtuple_cases(ctx):
                                      ok, payload, sok, spayload, mfn='c18_apply_nt_M', tags={'finding': FINDING_NAMEDTUPLE})
 
 
+def _obj_array(cells):
+    a = np.empty(len(cells), dtype=object)
+    for i, x in enumerate(cells):
+        a[i] = x
+    return a
+
+
+SENTINEL_CELLS = [('None', None), ('nan', float('nan')), ('0', 0), ("''", ''), ('False', False), ('()', ())]
+
+
+def sentinel_cases(ctx):
+    '''Object-dtype Series / Frames whose cells are values a careless implementation could take for an in-band "nothing" marker:
+    None (first, middle, last, only, all), NaN, 0, '', False, (): the pooled form must return the same labels, order and LENGTH as apply.
+    Enforced schedules where the task arguments are pairwise distinct, free-running pools (with delays) otherwise.'''
+    import static_frame as sf
+    quick = ctx.tier == 'quick'
+    rng = ctx.rng
+    fill = [7, 'w', 2.5, 11, 'z']
+    series = []
+    for cname, cell in SENTINEL_CELLS:
+        for pos in ('first', 'middle', 'last', 'only', 'all'):
+            n = {'only': 1, 'all': 3}.get(pos, 3)
+            cells = [cell] * n if pos in ('only', 'all') else list(fill[:n])
+            if pos not in ('only', 'all'):
+                cells[{'first': 0, 'middle': 1, 'last': 2}[pos]] = cell
+            series.append((f'{cname}@{pos}', cells))
+    series.append(('mixed', [None, 0, '', False, float('nan'), ()]))
+    specs = []
+    for sname, cells in series:
+        sr = sf.Series(_obj_array(cells), index=LABELS[:len(cells)], name='o')
+        specs.append((f'Series[{sname}].iter_element', sr, 'iter_element', {}, 'series'))
+    for cname, cell in SENTINEL_CELLS:
+        for where in ('first', 'last', 'all'):
+            rows = [[cell, 5], [8, 'u']] if where == 'first' else ([[4, 'v'], [9, cell]] if where == 'last' else [[cell, cell], [cell, cell]])
+            a = np.empty((2, 2), dtype=object)
+            for r in range(2):
+                for c_ in range(2):
+                    a[r, c_] = rows[r][c_]
+            fr = sf.Frame(a, index=('p', 'q'), columns=('x', 'y'), name='of')
+            tag = f'Frame[{cname}@{where}]'
+            for axis in (0, 1):
+                specs.append((f'{tag}.iter_element[{axis}]', fr, 'iter_element', {'axis': axis}, 'elements'))
+                specs.append((f'{tag}.iter_array[{axis}]', fr, 'iter_array', {'axis': axis}, 'series'))
+                specs.append((f'{tag}.iter_series[{axis}]', fr, 'iter_series', {'axis': axis}, 'series'))
+                specs.append((f'{tag}.iter_tuple[{axis}]', fr, 'iter_tuple', {'axis': axis, 'constructor': tuple}, 'series'))
+    configs = [('threads', 1, 1), ('threads', 2, 1), ('threads', 4, 2), ('procs', 2, 2), ('procs', 1, 1), ('procs', 4, 1)]
+    for idx, (iname, container, attr, kw, ctor) in enumerate(specs):
+        pairs = get_items(container, attr, kw)
+        cpairs = [(canon(k_), canon(v_)) for k_, v_ in pairs]
+        nt = len(cpairs)
+        is_series = iname.startswith('Series')
+        for items_form in (False, True):
+            digests = [digest((k_, v_) if items_form else v_) for k_, v_ in cpairs]
+            distinct = len(set(digests)) == nt
+            sok, spayload = run_apply_seq(container, attr, kw, ctor, items_form, {})
+            # Series.iter_element (the reported class) gets every pool configuration in quick too; the Frame iterators rotate
+            if is_series and not items_form:
+                todo = configs + [('threads', 2, nt + 1), ('procs', 2, nt + 1)]
+            elif quick:
+                todo = [configs[(idx + j) % len(configs)] for j in (0, 3)] if not items_form else [configs[idx % 3]]
+            else:
+                todo = configs + [('threads', 2, nt + 1), ('procs', 4, nt + 1)]
+            for kind, k, c in todo:
+                m = n_futures(nt, c, kind)
+                if distinct:
+                    pi = random_feasible(rng, m, k)
+                    ok, payload = run_apply_pool(container, attr, kw, ctor, items_form, kind, k, c, pi, {}, digests)
+                else:
+                    pi = None
+                    install_free({}, delay=rng.randint(1, 50))
+                    ok, payload = run_apply_pool(container, attr, kw, ctor, items_form, kind, k, c, None, {}, [])
+                    install_free({})
+                ctx.count('sentinel:' + ('series' if is_series else attr), f'sentinel:kind:{kind}', 'sentinel:' + ('enforced' if distinct else 'free'))
+                yield apply_case(ctx, 'api:apply_pool-sentinel', iname, kw, ctor, items_form, kind, k, c, pi, m, {}, cpairs,
+                                 ok, payload, sok, spayload, tags={'sentinel': True}, container=container)
+
+
 # ------------------------------------------------------------------------------------------ Batch strata
 def batch_frames(n, naming='equal'):
     '''Explicit (label, Frame) pairs.  naming: how Frame.name relates to the Batch label -- 'equal' (name == label), 'none' (unnamed),
@@ -1441,7 +1520,7 @@ def _cases(ctx):
             rot[0] += 1
         return out
     # the oracle first: if the contract does not hold the rest is meaningless (MachineryError)
-    yield from oracle_cases(ctx, 'threads', (3, 0, 1, 2, 4) if quick else (3, 0, 1, 2, 4, 5), ks)
+    yield from oracle_cases(ctx, 'threads', (3, 0, 1, 2) if quick else (3, 0, 1, 2, 4, 5), ks)
     yield from oracle_cases(ctx, 'procs', (3, 0, 1, 2) if quick else (3, 0, 1, 2, 4), [2, 1, 3, 8] if quick else [2, 1, 3, 4, 5, 6, 7, 8])
 
     # apply_pool, thread pools, every feasible schedule
@@ -1455,7 +1534,7 @@ def _cases(ctx):
     yield from malformed_cases(ctx)
     if quick:
         specs3 = iface_specs(3)
-        half = rotate(specs3, 5)
+        half = rotate(specs3, 4)
         yield from apply_pool_cases(ctx, 'threads', 3, half, ks, cs_threads, 'light', 'api:apply_pool-threads', rot)
         yield from apply_pool_cases(ctx, 'threads', 4, rotate(iface_specs(4), 1), ks, cs_threads, 'light', 'api:apply_pool-threads', rot)
     else:
@@ -1472,6 +1551,7 @@ def _cases(ctx):
     else:
         yield from apply_pool_cases(ctx, 'procs', 5, rotate(iface_specs(5), 1), [2, 3, 4], cs_all, 'light', 'api:apply_pool-procs', rot, forms=(bool(rot[0] % 2),))
     yield from namedtuple_cases(ctx)
+    yield from sentinel_cases(ctx)
     yield from free_cases(ctx)
     # Batch
     yield from batch_cases(ctx, 'threads', (2, 0, 1, 3) if quick else (2, 0, 1, 3, 4), ks, 'full' if not quick else 'light', rot, cs_threads)
